@@ -19,6 +19,8 @@ def build_values(raw):
         # (a string is a string: also one that spells a number)
         return {"str": "abc" if raw.get("npint", 0) == 0 else str(vals[0]), "float": float(vals[0]) + 0.5, "tuple": tuple(vals), "set": set(vals),
                 "none": None, "strlist": [str(x) + "x" for x in vals],
+                "period": pd.period_range("2000-01", periods=len(vals), freq="M"),
+                "datetime": pd.date_range("2000-01-01", periods=len(vals), freq="D"),
                 "dict": {x: x for x in vals}}[kind]
     if kind == "int":
         return int(vals[0]) if raw.get("npint", 0) == 0 else np.int64(vals[0])
@@ -30,8 +32,15 @@ def build_values(raw):
         return pd.Index(vals, dtype="int64")
     if kind == "range":
         d = vals[1] - vals[0] if len(vals) > 1 else 1
-        return pd.RangeIndex(vals[0], vals[-1] + (1 if d > 0 else -1), d)
+        # the stop of a range is any value between the last element (excluded) and the next grid point (included):
+        # both ends of that interval are used, alternately
+        R_CALLS[0] += 1
+        stop = vals[-1] + d if R_CALLS[0] % 2 else vals[-1] + (1 if d > 0 else -1)
+        return pd.RangeIndex(vals[0], stop, d)
     raise AssertionError(kind)
+
+
+R_CALLS = [0]
 
 
 def L(idx):
